@@ -379,6 +379,24 @@ func runC17(c c17Case) (out ev.Outcome) {
 		if a.Cmp(b) != 0 && (P.Equals(Q) || Q.Equals(P)) {
 			return fail("equals", "two different points are equal")
 		}
+		// P + (-P): the neutral element -- (0,1) on edwards25519; on secp256k1 it has no affine form, so the only
+		// right answer is an error
+		if s, err := P.Add(negP); c.Curve == "ed25519" {
+			if err != nil || !ptEq(s, big.NewInt(0), big.NewInt(1)) {
+				return fail("inverse", "P + (-P) is not the neutral element (0,1): %v err=%v", s, err)
+			}
+		} else if err == nil {
+			return fail("inverse", "P + (-P) returned the point (%x,%x) instead of an error (the sum is the point at infinity)", s.X(), s.Y())
+		}
+		if s2, err := negP.Add(P); c.Curve == "ed25519" && (err != nil || !ptEq(s2, big.NewInt(0), big.NewInt(1))) {
+			return fail("inverse", "(-P) + P is not the neutral element")
+		} else if c.Curve != "ed25519" && err == nil {
+			return fail("inverse", "(-P) + P returned a point instead of an error")
+		}
+		// P + P agrees with 2P
+		if d, err := P.Add(cp); err != nil || !ptEq(d, P.ScalarMult(big.NewInt(2)).X(), P.ScalarMult(big.NewInt(2)).Y()) {
+			return fail("doubling", "P + P != 2P (err=%v)", err)
+		}
 		pq, err1 := P.Add(Q)
 		qp, err2 := Q.Add(P)
 		if err1 != nil || err2 != nil || !pq.Equals(qp) {
